@@ -536,6 +536,46 @@ func runC04(c *Ctx) {
 				} else {
 					j.triple(r)
 				}
+			case 4:
+				// word images: y is built from one machine word (or decimal chunk) of x's coefficient, written in a
+				// finer cohort position, so that a comparison which looks at only part of a multi-word coefficient
+				// sees equal operands: (cx mod 2^64)*10^g, (cx >> 64)*10^g, (cx mod 10^19)*10^g, floor(cx/10^19)*10^g
+				cx, _ := r.Coef()
+				if cx.BitLen() <= 64 || r.Chance(1, 3) {
+					cx = new(big.Int).Lsh(new(big.Int).SetUint64(r.U64()>>uint(r.Range(15, 63))), 64)
+					cx.Or(cx, new(big.Int).SetUint64(r.U64()>>uint(r.Intn(60))))
+					if cx.Cmp(ref.Cmax) > 0 {
+						cx.Rsh(cx, 20)
+					}
+				}
+				var img *big.Int
+				two64 := new(big.Int).Lsh(ref.One, 64)
+				switch r.Intn(4) {
+				case 0:
+					img = new(big.Int).Mod(cx, two64)
+				case 1:
+					img = new(big.Int).Rsh(cx, 64)
+				case 2:
+					img = new(big.Int).Mod(cx, ref.Pow10(19))
+				default:
+					img = new(big.Int).Quo(cx, ref.Pow10(19))
+				}
+				if img.Sign() == 0 {
+					img.SetInt64(1)
+				}
+				g := r.Range(0, 34)
+				for g > 0 && new(big.Int).Mul(img, ref.Pow10(g)).Cmp(ref.Cmax) > 0 {
+					g--
+				}
+				ex := r.Range(-60, 60)
+				neg := r.Bool()
+				x := ref.Encode(neg, cx, ex)
+				y := ref.Encode(neg != r.Chance(1, 8), new(big.Int).Mul(img, ref.Pow10(g)), ex-g)
+				j.sh.Cell("rel/word-image")
+				if r.Bool() {
+					x, y = y, x
+				}
+				j.judgePair(x, y, "")
 			default:
 				x, y := gridPair(r, r.Range(1, 35), r.Range(1, 35), r.Pick(0, 1, -1, 18, 19, 20, 26, 27, 28, 34, 35, 36, -19, -27, -35, r.Range(-40, 40)))
 				j.judgePair(x, y, "")
